@@ -76,7 +76,7 @@ ASSUMPTIONS = [
 CHUNK = 1
 TAGS = ["none", "bw", "bwff", "abw", "spy1", "spy2"]
 FF_TAGS = ("bwff", "abw")
-STATES_PER_SHARD = {"quick": 70, "thorough": 160}
+STATES_PER_SHARD = {"quick": 40, "thorough": 160}
 G = 4  # lattice points
 
 
@@ -139,32 +139,40 @@ def base_reactions() -> dict:
 
 
 # (reaction, selections, builder tags, depth); "full" = "cat" + initial-state name + root decay
+TA, TB, TC, TD = ["none", "bw", "spy1"], ["none", "bwff", "spy2"], ["none", "abw", "spy1"], ["none", "spy1", "spy2"]
 QUICK = [
-    ("one-res.hel", "full", T4A, 3), ("one-res.can", "cat", TAGS, 3),
-    ("two-res-one-topology.hel", "full", T4B, 3), ("two-res-one-topology.can", "cat", TAGS, 3),
-    ("two-res-two-topologies.hel", "full", T4A, 3), ("two-res-two-topologies.can", "cat", T4B, 3),
-    ("same-res-three-topologies.hel", "full", T4B, 3), ("same-res-three-topologies.can", "cat", TAGS, 3),
-    ("three-res.hel", "cat", TAGS, 3), ("three-res.can", "cat", T4A, 3),
-    ("same-res-two-topologies+prefix-name.hel", "full", T4A, 3),
-    ("several-L.can", "cat", T4B, 3), ("several-L-spin2.can", "cat", T4B, 3),
-    ("half-integer-res.hel", "full", T4B, 3), ("half-integer-res.can", "cat", T3, 2),
-    ("identical-particles-image.hel", "full", T4A, 3), ("identical-particles-image.hel", "cat", T4B, 3),
-    ("identical-particles-image.can", "cat", T4B, 3),
-    ("four-body-topology0.hel", "cat", TAGS, 3), ("four-body-topology1.hel", "full", T4A, 3),
-    ("four-body-topology1.can", "cat", T3, 3),
+    ("one-res.hel", "full", T4A, 3), ("one-res.can", "cat", T4B, 3),
+    ("two-res-one-topology.hel", "full", TC, 3), ("two-res-one-topology.can", "cat", T4A, 3),
+    ("two-res-two-topologies.hel", "cat", T4A, 3), ("two-res-two-topologies.can", "cat", TD, 3),
+    ("same-res-three-topologies.hel", "cat", TAGS, 3), ("same-res-three-topologies.can", "cat", T4A, 3),
+    ("three-res.hel", "cat", T4A, 3), ("three-res.can", "cat", TA, 2),
+    ("same-res-two-topologies+prefix-name.hel", "cat", T4B, 3),
+    ("several-L.can", "cat", TB, 3), ("several-L-spin2.can", "cat", TC, 3),
+    ("half-integer-res.hel", "cat", T4B, 3),
+    ("identical-particles-image.hel", "cat", T4A, 3), ("identical-particles-image.hel", "cat", TB, 3),
+    ("four-body-topology0.hel", "cat", T4A, 3), ("four-body-topology1.hel", "cat", T4B, 3),
     ("jpsi_gpipi_f0f2.hel", "cat", TAGS, 3), ("jpsi_gpipi_f0f2.can", "cat", T4B, 3),
-    ("jpsi_gpipi_omega.hel", "cat", TAGS, 3), ("jpsi_gpipi_omega.can", "cat", T4B, 3),
-    ("lc_pkpi.hel", "cat", T4A, 3), ("lc_pkpi.can", "cat", T3, 2),
-    ("jpsi_ksp_sigma_n.hel", "cat", T4B, 3), ("jpsi_ksp_sigma_n.can", "cat", T3, 2),
+    ("jpsi_gpipi_omega.hel", "cat", T4B, 3), ("jpsi_gpipi_omega.can", "cat", TB, 3),
+    ("lc_pkpi.hel", "cat", TA, 3), ("lc_pkpi.can", "cat", ["bwff", "spy1"], 2),
+    ("jpsi_ksp_sigma_n.hel", "cat", T4B, 3), ("jpsi_ksp_sigma_n.can", "cat", TB, 2),
 ]
+HEAVY = {"half-integer-res.can", "identical-particles-image.can", "four-body-topology0.can",
+         "four-body-topology1.can"}
+FULL_D3 = {"one-res.hel", "two-res-two-topologies.hel", "same-res-two-topologies+prefix-name.hel",
+           "identical-particles-image.hel", "half-integer-res.hel", "four-body-topology0.hel"}
 
 
 def thorough_table() -> list:
     out = []
     for name in base_reactions():
+        if name in HEAVY:
+            out.append((name, "cat", TB if "half" not in name else TC, 2))
+            continue
         out.append((name, "cat", TAGS, 4))
-        if name.endswith(".hel"):
+        if name in FULL_D3:
             out.append((name, "full", TAGS, 3))
+        elif name.endswith(".hel"):
+            out.append((name, "full", T4B, 3))
         else:
             out.append((name, "full", T4A if "several" not in name else T4B, 3))
     out += [
@@ -374,9 +382,10 @@ class Unevaluable(Exception):
 class Interp:
     """Memoised numeric interpreter (one instance per environment)."""
 
-    def __init__(self, env: dict, undef=None) -> None:
+    def __init__(self, env: dict, undef=None, amplitudes=None) -> None:
         self.env = env
         self.undef = undef or {}
+        self.amplitudes = amplitudes  # {Indexed: definition} for models given by `intensity`
         self.memo = {}
 
     def __call__(self, e):
@@ -399,8 +408,8 @@ class Interp:
             if e.name not in self.env:
                 raise Unevaluable(e.name)
             return self.env[e.name]
-        if e.is_Number:
-            return complex(e) if not e.is_real else float(e)
+        if e.is_Number or e.is_NumberSymbol:
+            return float(e)
         if e is sp.I:
             return 1j
         if e.is_Add:
@@ -425,6 +434,22 @@ class Interp:
         if isinstance(e, WignerD):
             j, m, mp = (Fraction(int(x.p), int(x.q)) for x in e.args[:3])
             return refspin.wigner_D(j, m, mp, self(e.args[3]), self(e.args[4]), self(e.args[5]))
+        if isinstance(e, sp.Abs):
+            return np.abs(self(e.args[0]))
+        if isinstance(e, sp.conjugate):
+            return np.conj(self(e.args[0]))
+        if type(e).__name__ == "PoolSum":
+            import itertools  # noqa: PLC0415
+
+            idx = [i for i, _ in e.indices]
+            tot = 0.0
+            for combo in itertools.product(*[pool for _, pool in e.indices]):
+                tot = tot + self(e.expression.xreplace(dict(zip(idx, combo))))
+            return tot
+        if isinstance(e, sp.Indexed):
+            if self.amplitudes is None or e not in self.amplitudes:
+                raise Unevaluable(str(e))
+            return self(self.amplitudes[e])
         # any other node: the library's own doit() and NumPy printer
         if e not in _LEAF_FN:
             free = sorted(e.free_symbols, key=lambda s: s.name)
